@@ -25,6 +25,12 @@ structure Cfg where
   n : Nat
   items : Nat → List Nat
   cap : Nat → Nat
+  /-- `nilIn i`: channel ARGUMENT i is nil at run time.  It is never received from (`ci != nil` is false from the
+  start); in the model it is an input that is closed and drained from the start, without items of its own. -/
+  nilIn : Nat → Bool := fun _ => false
+
+/-- the items input i really carries: none for a nil argument -/
+def eitems (c : Cfg) (i : Nat) : List Nat := if c.nilIn i then [] else c.items i
 
 inductive Pc
   | sel | send (i v : Nat) | nil (i : Nat) | closing | done
@@ -54,8 +60,10 @@ def anyLive (live : Nat → Bool) : Nat → Bool
 def loopHead (c : Cfg) (live : Nat → Bool) : Pc := if anyLive live c.n then .sel else .closing
 
 def init (c : Cfg) : State :=
-  { pend := c.items, ch := fun i => Chan.mk0 (c.cap i), liveIn := fun _ => true,
-    pc := loopHead c (fun _ => true), outClosed := false, got := [], seen := false, panicked := false }
+  { pend := eitems c,
+    ch := fun i => if c.nilIn i then { cap := c.cap i, buf := [], closed := true } else Chan.mk0 (c.cap i),
+    liveIn := fun i => !c.nilIn i,
+    pc := loopHead c (fun i => !c.nilIn i), outClosed := false, got := [], seen := false, panicked := false }
 
 def held : Pc → Nat → List Nat
   | .send i v, j => if i = j then [v] else []
